@@ -90,6 +90,10 @@ func scanSpecDirs(dirs []string, scanFn scanSpecFunc) error {
 			// first call from Walk is for dir itself, others we skip
 			if info.IsDir() {
 				if path == dir {
+					if err != nil {
+						// the directory exists but could not be read
+						return scanFn(path, priority, nil, err)
+					}
 					return nil
 				}
 				return filepath.SkipDir
